@@ -214,7 +214,7 @@ def verifyTrack (w : World) : World :=
   let w := { w with ownerSince := own }
   { w with apis := w.apis.map fun (a : ApiCall) =>
       match a.kind with
-      | ApiKind.validate | ApiKind.validateOrDemote =>
+      | ApiKind.validate _ | ApiKind.validateOrDemote _ =>
         (match w.inst? a.inst with
          | some x => (match w.live x.cfg.key with
             | some r => (match r.val.mapView with
@@ -243,6 +243,8 @@ def recordLost (w : World) (h : Hyp) (key : String) (before : Option Rec) : Worl
 
 /-- One visible event. -/
 def step (m : MState) (e : TEv) : MState :=
+  -- after `end` the harness tears the scenario down: no obligation is evaluated any more
+  if m.w.ended && (match e.ev with | .gor _ => false | _ => true) then { m with w := { m.w with line := m.w.line + 1, now := e.t } } else
   let w0 := deadlines { m.w with line := m.w.line + 1 } e.t
   let w0 := deadlinesHB w0 e.t
   let w0 := deadlinesVacancy w0 m.hyp.maxLat m.hyp.faultsEnd e.t
@@ -460,7 +462,7 @@ def step (m : MState) (e : TEv) : MState :=
                                   tokAtCall := (match w0.inst? i with | some x => x.flagTok | none => 0) } :: w0.apis }
     let w := match k with
       | .start => w.updInst i fun x => { x with stoppedSince := none, stopCalledSince := none, everStarted := true, lastTo := 1, startedAt := e.t, candidateSince := e.t }
-      | .validate | .validateOrDemote => verifyTrack w
+      | .validate _ | .validateOrDemote _ => verifyTrack w
       | .stop | .stopctx _ _ _ _ => (match w.inst? i with | some x => earlyCancelled w x e.t | none => w).updInst i fun x =>
           let y := endTerm x
           { y with stopsInProgress := x.stopsInProgress + 1, stopCalledSince := some e.t, graceDue := none, verifyOpen := none }
@@ -482,10 +484,10 @@ def step (m : MState) (e : TEv) : MState :=
             | none => false
           checkW w (!(del && mine && a.ownerAtCall)) "C09" "record-survives-deletekey" s!"instance {i}: its record is still live when StopWithContext(DeleteKey) returns"
         | .stop, _ | .stopctx _ _ _ _, _ => w.setInst { x with stopsInProgress := x.stopsInProgress - 1 }
-        | .validate, .verdict true tok _ =>
+        | .validate _, .verdict true tok _ =>
           checkW (w.hit "C04:validate-true")  (tok != 0 && a.sawValid.contains tok && a.flagAtCall && tok == a.tokAtCall) "C04" "validate-true-unsound"
             s!"instance {i}: ValidateToken returned true for token {tok}, but during the call the record never held its id with that token (seen: {a.sawValid}; leader at call: {a.flagAtCall}, term token {a.tokAtCall})"
-        | .validateOrDemote, .verdict v tok il =>
+        | .validateOrDemote _, .verdict v tok il =>
           let w := w.hit (if v then "C04:or-demote-true" else if a.flagAtCall then "C04:or-demote-false-leader" else "C04:or-demote-false-follower")
           let w := checkW w (!v || (tok != 0 && a.sawValid.contains tok && a.flagAtCall && tok == a.tokAtCall)) "C04" "validate-true-unsound"
             s!"instance {i}: ValidateTokenOrDemote returned true for token {tok}, but during the call the record never held its id with that token (seen: {a.sawValid})"
